@@ -37,6 +37,13 @@ pub fn op_line(rules: &[String], w: &WordS) -> Option<String> {
 }
 
 /// `interp-ops <ops> <impl> <tier> <seed>`
+/// minimised past failures and disagreements; they run first (word, rule)
+const CORPUS: &[(&str, &str)] = &[
+    ("apːa", "[] O => p:[-long] t"), ("apːa", "[] O => p:[+long] t"), ("rpːe", "r p => p:[-long] t"), ("atːa", "[] O => p:[+long] t"),
+    ("apːa", "a => p:[-long]"), ("apːa", "a => p"), ("ap.pa", "p => t:[-long]"), ("aːa", "a => a:[+long]"),
+    ("atab", "a … b k > *"), ("ha.ta", "* > e / _$x"), ("pata", "p, t, k > b, d, g | _a, _e"), ("tas", "s[+cons] > z"),
+];
+
 pub fn ops(args: &[String]) -> i32 {
     quiet_panics();
     let mut ops = std::io::BufWriter::new(std::fs::File::create(&args[0]).unwrap());
@@ -48,6 +55,7 @@ pub fn ops(args: &[String]) -> i32 {
     let mut st = crate::runner::Stats::new();
     for case in 0..n {
         let (rules, word): (Vec<String>, String) = match case % 6 {
+            _ if case < CORPUS.len() => (vec![CORPUS[case].1.to_string()], CORPUS[case].0.to_string()),
             0 => (vec![g.rule(Profile::Basic)], g.word()),
             1 | 2 => (vec![g.rule(Profile::Tame)], g.word()),
             3 => (vec![g.rule(Profile::Full)], g.word()),
